@@ -17,7 +17,7 @@ import (
 	"google.golang.org/grpc/metadata"
 )
 
-var errV19Stream = errors.New("verif: stream broken")
+var v19ErrStream = errors.New("verif: stream broken")
 
 // v19Stream is the server side of a Subscribe stream as gRPC presents it:
 // Send fails from the failAt-th call on (a broken transport stays broken) and
@@ -34,7 +34,13 @@ func (s *v19Stream) Send(r *sdcpb.SubscribeResponse) error {
 	s.sends++
 	if s.failAt != 0 && s.sends >= s.failAt {
 		s.failed++
-		return errV19Stream
+		if !verifrt.Symbolic() {
+			// native replay only: a failing Send takes a moment, so that the
+			// other samplers (woken by their own tickers microseconds later)
+			// are in flight as well, as under the virtual clock
+			time.Sleep(20 * time.Millisecond)
+		}
+		return v19ErrStream
 	}
 	if err := s.ctx.Err(); err != nil {
 		s.failed++
@@ -109,7 +115,7 @@ func VerifSubscribe() {
 	req := v19Request(subs, uint64(time.Second))
 
 	// how the stream ends
-	cancelAfter := -1 // -1: never by itself; 0: before the call; k: after k-1 sample rounds
+	cancelAfter := -1                     // -1: never by itself; 0: before the call; k: after k-1 sample rounds
 	ending := verifrt.Param("ending", -1) // -1: either; 0: client cancels; 1: Send starts failing
 	if ending < 0 {
 		ending = verifrt.Choice("ending", 2)
